@@ -511,7 +511,27 @@ def reach_map(body):
             return
         if k == "Switch":
             ex(s.get("c"), ctx)
-            st(s.get("b"), ctx)
+            # statements after `case V:` (up to the next label) run under `c == V` when the previous group cannot fall through
+            body = s.get("b")
+            if isinstance(body, dict):
+                m[id(body)] = ctx
+            cur, prev_leaves = ctx, True
+            for x in stmts_of(body):
+                if not isinstance(x, dict):
+                    continue
+                if x.get("k") in ("Case", "Default"):
+                    if x.get("k") == "Case" and prev_leaves and isinstance(s.get("c"), dict) and isinstance(x.get("v"), dict):
+                        lit = _orient({"k": "Bin", "op": "==", "l": s["c"], "r": x["v"], "t": "bool", "sz": 1, "loc": x.get("loc"), "synth": True})
+                        cur = ctx + _tag([lit], "case")
+                    else:
+                        cur = ctx
+                    m[id(x)] = cur
+                    ex(x.get("v"), ctx)
+                    st(x.get("s"), cur)
+                    prev_leaves = leaves(x.get("s"))
+                else:
+                    st(x, cur)
+                    prev_leaves = leaves(x)
             return
         if k in ("Case", "Default"):
             ex(s.get("v"), ctx)
